@@ -31,7 +31,7 @@ LEVEL_TEXT = ("Fault enumeration: each fault class named by the property is appl
               "TreeBuilder and through OFXTree.parse with a header.")
 LEVEL_NOTE = "Trusts ref_sgml.py; truncation inside a multi-byte UTF-8 sequence is done at character level (the header layer is C05's business)."
 DESIGN_REF = "DESIGN.md §3 C08"
-MIN_COUNTERS = {"quick": {"via_reused_OFXTree": 8000, "via_interleaved_builders": 8000, "illformed_cases": 20000, "benign_cases": 500, "via_OFXTree_parse": 500},
+MIN_COUNTERS = {"quick": {"illformed_cases_with_comments": 8000, "via_reused_OFXTree": 8000, "via_interleaved_builders": 8000, "illformed_cases": 20000, "benign_cases": 500, "via_OFXTree_parse": 500},
                 "thorough": {"via_reused_OFXTree": 100000, "via_interleaved_builders": 100000, "illformed_cases": 1000000, "benign_cases": 8000, "via_OFXTree_parse": 100000}}
 
 TOKEN_RE = re.compile(r"<[^<>]*>")
@@ -95,6 +95,41 @@ ROUTES = {"tb": lib_tb, "tree": lib_tree, "tree-reused": lib_tree_reused, "inter
 HAS_TAG = re.compile(r"<[^<>]+>")
 
 AMBIGUOUS_CDATA = re.compile(r"<([A-Z0-9._]+)><!\[CDATA\[(?:(?!\]\]>).)*\]\]>\s+</\1>", re.S)
+
+
+def with_comments(text, rng):
+    """The same text with three XML comments put between tags (first, middle and last '><' boundary)."""
+    cuts = [m.start() + 1 for m in re.finditer(r">\s*<", text)]
+    if len(cuts) < 3:
+        return None
+    picks = sorted({cuts[0], cuts[len(cuts) // 2], cuts[-1]}, reverse=True)
+    for i, c in enumerate(picks):
+        text = text[:c] + rng.choice(["<!-- note -->", "<!--x-->", "<!-- a > b -->"]) + text[c:]
+    return text
+
+
+def judge_commented(ctx, text, fault, rng):
+    """An ill-formed body stays ill-formed when comments are put between its tags (judged in this direction only: whether comments
+    are tolerated at all is not the property's business)."""
+    try:
+        ref_sgml.parse(text)
+        return
+    except ref_sgml.RefError as e:
+        ill = str(e)
+    if ill.startswith("unterminated tag at ") or AMBIGUOUS_CDATA.search(text) or "<![CDATA[" in text:
+        return
+    ctext = with_comments(text, rng)
+    if ctext is None:
+        return
+    ctx.ev()
+    ctx.count("illformed_cases_with_comments")
+    try:
+        root = lib_tb(ctext)
+    except Exception:  # noqa: refused
+        return
+    if root is not None:
+        ctx.violation("accepted/with-comments", f"{fault} + comments -> parser returned <{root.tag}> for ill-formed body ({ill}): {ctext[-160:]!r}",
+                      {"text": text, "fault": fault, "via_tree": "tb", "commented": ctext})
 
 
 def judge(ctx, text, fault, via_tree=False):
@@ -311,6 +346,8 @@ def run_shard(ctx):
             if text == body:
                 continue
             judge(ctx, text, fault, via_tree=("tree" if fi % 7 == 0 else "tree-reused" if fi % 7 == 3 else "interleaved" if fi % 7 == 5 else "tb"))
+            if fi % 5 == 1:
+                judge_commented(ctx, text, fault, rng)
             ctx.distinct(text)
             ctx.add("fault_kinds", fault["kind"])
         if thorough:
@@ -329,4 +366,7 @@ def run_shard(ctx):
 
 def replay(ctx, case):
     ref_sgml.selftest()
+    if case.get("commented"):
+        judge_commented(ctx, case["text"], case["fault"], ctx.rng)
+        return
     judge(ctx, case["text"], case["fault"], via_tree=case.get("via_tree", False))
